@@ -59,6 +59,9 @@ def gen_cfg(depth: int, max_top: int) -> G.GenCfg:
 def run_case(case):
     tr = O.run_trace(case, follow_up=False)
     _v2, v5, info = O.analyse(tr)
+    if not v5 and tr.second is not None:
+        _v2b, v5b, _info2 = O.analyse(tr.second)
+        v5 = [(s, "[run 2 after %s] %s" % (tr.second_how, m)) for s, m in v5b]
     return [Violation(s, m, case) for s, m in v5], info, tr
 
 
